@@ -38,7 +38,10 @@ STR_METHODS = {"startswith", "endswith", "split", "rsplit", "find", "rfind", "in
 
 
 class _StrOps(ast.NodeTransformer):
-    """Source-to-source step applied when a repository module is shim-loaded: ``x.startswith(y)`` (and
+    """Source-to-source step applied when a repository module is shim-loaded.  Dict and set *displays*
+    (``{...}``) build containers that compare keys by (possibly symbolic) equality instead of hashing
+    (pysx/containers.py), so that memo tables keyed by symbolic values are analysed symbolically; ``import re``
+    binds the symbolic regular-expression engine.  Further: ``x.startswith(y)`` (and
     the other str methods above) becomes ``pysx__m(x, 'startswith', y)`` and ``a in b`` becomes
     ``pysx__in(a, b)``.  Both helpers behave exactly like the original expression unless a *real* str
     receives a symbolic string argument (which CPython's C implementation would reject with TypeError);
@@ -67,6 +70,20 @@ class _StrOps(ast.NodeTransformer):
         if keep:
             out.insert(0, ast.copy_location(ast.Import(names=keep), node))
         return out
+
+    def visit_Dict(self, node):
+        self.generic_visit(node)
+        if any(k is None for k in node.keys):        # ``**mapping`` unpacking: leave alone
+            return node
+        pairs = ast.List(elts=[ast.Tuple(elts=[k, v], ctx=ast.Load()) for k, v in zip(node.keys, node.values)], ctx=ast.Load())
+        return ast.copy_location(ast.Call(func=ast.Name(id="pysx__dict", ctx=ast.Load()), args=[pairs], keywords=[]), node)
+
+    def visit_Set(self, node):
+        self.generic_visit(node)
+        if any(isinstance(e, ast.Starred) for e in node.elts):
+            return node
+        return ast.copy_location(ast.Call(func=ast.Name(id="pysx__set", ctx=ast.Load()),
+                                          args=[ast.List(elts=list(node.elts), ctx=ast.Load())], keywords=[]), node)
 
     def visit_Compare(self, node):
         self.generic_visit(node)
@@ -118,6 +135,9 @@ def load_source(path, fullname, package, overrides=None, pre=None, siblings=None
     mod.__package__ = package
     mod.__dict__["pysx__m"] = _pysx_m
     mod.__dict__["pysx__in"] = _pysx_in
+    from .containers import SymDict, SymSet
+    mod.__dict__["pysx__dict"] = SymDict
+    mod.__dict__["pysx__set"] = SymSet
     from .reshim import ReShim
     mod.__dict__["pysx__re"] = ReShim()
     if pre:
